@@ -276,6 +276,11 @@ def _shards(lines, n):
     return sh_
 
 
+def subst_base(line, base):
+    """the shard's scratch directory for the placeholder @W@ - in plain fields and, as hex, inside hex-encoded fields (paths, link targets, requests)"""
+    return line.replace("@W@", base).replace("405740", base.encode().hex())
+
+
 def run_impl(exe, lines, workdir, timeout=900, sequential=False):
     """run case lines through the Rust harness; a runner that dies (stack overflow, abort) marks the case it was on as
     CRASH and the rest of the shard is resumed in a fresh process"""
@@ -296,7 +301,7 @@ def run_impl(exe, lines, workdir, timeout=900, sequential=False):
             wd = os.path.join(workdir, "impl%d" % s["k"])
             os.makedirs(wd, exist_ok=True)
             fin, fout = os.path.join(wd, "in.txt"), os.path.join(wd, "out.txt")
-            open(fin, "w").write("".join(strip_meta(l).replace("@W@", wd + "/w") + "\n" for _, l in s["todo"]))
+            open(fin, "w").write("".join(subst_base(strip_meta(l), wd + "/w") + "\n" for _, l in s["todo"]))
             if os.path.exists(fout):
                 os.remove(fout)
             p = subprocess.Popen([exe, fin, fout], cwd=wd, stdout=subprocess.DEVNULL, stderr=subprocess.DEVNULL, env=dict(os.environ, RUST_BACKTRACE="0"))
@@ -350,7 +355,7 @@ def run_model(exe, lines, workdir, timeout=900):
             if not s["todo"]:
                 continue
             wd = os.path.join(workdir, "impl%d" % s["k"])   # same @W@ substitution as the implementation side
-            data = "".join(strip_meta(l).replace("@W@", wd + "/w") + "\n" for _, l in s["todo"]).encode()
+            data = "".join(subst_base(strip_meta(l), wd + "/w") + "\n" for _, l in s["todo"]).encode()
             p = subprocess.Popen([exe, REPO], stdin=subprocess.PIPE, stdout=subprocess.PIPE, stderr=subprocess.PIPE, preexec_fn=_big_stack)
             procs.append((s, p, data))
         outs = {}
